@@ -116,6 +116,21 @@ pub fn run_dialect<D: Dialect>(
     env: NodePtr,
     budget: u64,
 ) -> Outcome {
+    // monitors say 0 for "unlimited"; random programs may loop forever, so the
+    // harness substitutes a large finite budget. `run_dialect_raw` passes a true 0.
+    let budget = if budget == 0 { UNLIMITED } else { budget };
+    run_dialect_raw(a, d, prog, env, budget)
+}
+
+pub const UNLIMITED: u64 = 50_000_000;
+
+pub fn run_dialect_raw<D: Dialect>(
+    a: &mut Allocator,
+    d: &D,
+    prog: NodePtr,
+    env: NodePtr,
+    budget: u64,
+) -> Outcome {
     let r = guarded(|| run_program(a, d, prog, env, budget));
     let (res, node) = res_of(a, r);
     Outcome {
